@@ -22,7 +22,7 @@ RULE = ("trees and lone files x output directory {absolute fresh, relative to th
         "excluded), each exactly once and followed by one empty line, pages of one directory in sorted name order, nothing "
         "else; a sample is re-run as a real subprocess for true stdout. Non-trivial: output directory pre-populated or "
         "nested/parent, and a tree with >=2 directories; distinct by SHA-1 of the case")
-RULE_MORE = 'snapshots include modification times; the same command line run twice into one output directory; a symbolic link in the tree to a CMake file outside it.'
+RULE_MORE = 'snapshots include modification times; the same command line run twice into one output directory; a symbolic link in the tree to a CMake file outside it. Later: auto-exclusion off; unrelated files extending generated names; a page > 64 KiB; output path with decomposed characters.'
 ASSUMPTIONS = ["the in-process runner captures sys.stdout/sys.stderr including logging handlers bound at configuration time",
                "creating missing ancestors of the output directory is part of creating the output directory"]
 BUDGET = {"quick": {"shards": 8, "examples": 80}, "thorough": {"shards": 16, "examples": 1200}}
